@@ -29,6 +29,10 @@ Definition show_hs (p : N) (s : hstats) :=
    (h_cb s, h_tb s, show_oz (rate_units p (html_shown (h_cb s) (h_tb s) p)))).
 Definition show_summ (s : lcov_summ) := (s_LF s, s_LH s, s_BRF s, s_BRH s, s_FN s).
 
+Definition show_ap (a : ade_part) := (ap_covered a, ap_uncovered a, ap_total_covered a, ap_total_uncovered a).
+Definition show_ade (f : ade_file) :=
+  (af_name f, map (fun m : name * ade_part => (m.1, show_ap m.2)) (af_methods f), show_ap (af_file f), show_ap (af_orphan f)).
+
 (* parent directory of the rel path as html.rs keys it: the components but the last, joined by '/' *)
 Fixpoint join_slash (cs : list name) : name :=
   match cs with [] => [] | [c] => c | c :: cs => c ++ 47 :: join_slash cs end.
@@ -49,4 +53,5 @@ Definition run_report (p : N) (fs : list file_l) :=
     show_hs p (html_global hst),
     (fun g => (show_oz (badge_percent (h_cl g) (h_tl g)))) (html_global hst)),
    map (fun r => show_summ (lcov_summary (r_cov r))) rs,
-   encode_files nc).
+   encode_files nc,
+   map show_ade (encode_ade nc)).
